@@ -180,7 +180,15 @@ impl<'a> ParamsSequence<'a> {
 				self.0 = "";
 				return None;
 			}
-			b'[' | b',' => json = &json[1..],
+			b'[' => {
+				json = &json[1..];
+				// An empty array may be written with whitespace inside, e.g. `[ ]`.
+				if json.trim_start().starts_with(']') {
+					self.0 = "";
+					return None;
+				}
+			}
+			b',' => json = &json[1..],
 			_ => {
 				let errmsg = format!("Invalid params. Expected one of '[', ']' or ',' but found {json:?}");
 				return Some(Err(invalid_params(errmsg)));
